@@ -551,7 +551,7 @@ def predict (desc printed : String) : String :=
     | .reject => "g1:reject"
     | .confusion => "unsupported:kind"
     | .resolved xs =>
-      if printed = "-" then "g1:" ++ showUses xs else
+      if printed = "?" then "g1:" ++ showUses xs else
       match exportInstrs is s1.uses ((printed.splitOn " ").filter (· ≠ "")) with
       | .error m => "unsupported:export:" ++ m
       | .ok is2 =>
